@@ -24,6 +24,8 @@ Trace events (one list per (program, simulation), merged by the parent), all dat
   ["repaircost", day, "program"|"natural", amount, emission_id]     increments of EmisInfo cost totals
   ["fuflag", day, schedule_method, kind, site, rate, latest_detection_day, n_detected_rates, site_latest_tagging_day]
                                                           precedes the outermost "fuq" of an insertion (C09)
+  ["sitemeas", day, method, site, measured_rate, survey_start_day]   site-level measurement at the completion
+                                                          of a screening survey (zero when nothing detected) (C09)
   ["fuqsnap", day, schedule_method, [[class, site, rate], ...]]     follow-up queue in pop order (from a copy)
                                                           at the start of the follow-up schedule's get_workplan
   ["sched", method, schedule_class, crews, daily_surveys, [[site, required, months, dep_years, planner_years,
@@ -258,6 +260,25 @@ def install_wrappers():
 
     if "get_workplan" not in FollowUpMobileSchedule.__dict__:
         FollowUpMobileSchedule.get_workplan = fu_get_workplan
+
+    # --- C09: what a site-level screening survey measured (observation only) ---------------------
+    try:
+        from sensors.default_site_level_sensor import DefaultSiteLevelSensor
+        orig_sl_detect = DefaultSiteLevelSensor.detect_emissions
+
+        @functools.wraps(orig_sl_detect)
+        def sl_detect(self, site, meth_name, survey_report):
+            out = orig_sl_detect(self, site, meth_name, survey_report)
+            try:
+                EVENTS.append(["sitemeas", CTXT["day"], meth_name, str(site.get_id()),
+                               survey_report.site_measured_rate, di(survey_report.survey_start_date)])
+            except Exception:
+                pass
+            return out
+
+        DefaultSiteLevelSensor.detect_emissions = sl_detect
+    except Exception:
+        pass
 
     orig_upd = SiteLevelMethod.update
 
